@@ -15,6 +15,7 @@
 #include <fcntl.h>
 #include <netinet/in.h>
 #include <sys/socket.h>
+#include <sys/stat.h>
 
 static char g_tp[16], g_phase[24], g_certs[256];
 static struct xcm_socket *g_conn, *g_server, *g_peer;
@@ -157,6 +158,74 @@ static struct xcm_socket *establish(const char *addr)
     return g_peer;
 }
 
+/* phase=creds-change: the credential directory is a private copy; at each fopen() inside an API call the explorer
+   may let "somebody else" touch every file in it */
+static int g_creds_watch, g_touches;
+static char g_priv[300];
+
+static void touch_creds(void)
+{
+    static const char *fn[] = { "cert.pem", "key.pem", "tc.pem", "crl.pem" };
+    g_touches++;
+    for (int i = 0; i < 4; i++) {
+        char p[400];
+        snprintf(p, sizeof p, "%s/%s", g_priv, fn[i]);
+        struct timespec ts[2] = { { 1700000000 + g_touches * 10, 0 }, { 1700000000 + g_touches * 10, 0 } };
+        utimensat(AT_FDCWD, p, ts, 0);
+    }
+}
+
+static void creds_hook(const char *name, long a, long b, long c)
+{
+    (void)b; (void)c;
+    if (!g_creds_watch || strcmp(name, "fopen") || !mc_cur_api()[0])
+        return;
+    const char *path = (const char *)a;
+    if (!path || strncmp(path, g_priv, strlen(g_priv)))
+        return;
+    if (mc_choose(2, MC_IO, "creds-touched") == 0)
+        return;
+    touch_creds();
+    mc_observe("credential files touched (#%d) while %s reads %s", g_touches, mc_cur_api(), strrchr(path, '/') + 1);
+}
+
+static void private_certs(void)
+{
+    static const char *fn[] = { "cert.pem", "key.pem", "tc.pem", "crl.pem" };
+    snprintf(g_priv, sizeof g_priv, "/verif/build/run/nbcreds-%d", getpid());
+    mkdir("/verif/build/run", 0755);
+    mkdir(g_priv, 0700);
+    for (int i = 0; i < 4; i++) {
+        char src[600], dst[600], buf[16384];
+        snprintf(src, sizeof src, "%s/%s", g_certs, fn[i]);
+        snprintf(dst, sizeof dst, "%s/%s", g_priv, fn[i]);
+        FILE *f = fopen(src, "r");
+        if (!f)
+            continue;
+        size_t n = fread(buf, 1, sizeof buf, f);
+        fclose(f);
+        FILE *o = fopen(dst, "w");
+        if (o) {
+            fwrite(buf, 1, n, o);
+            fclose(o);
+        }
+    }
+    snprintf(g_certs, sizeof g_certs, "%s", g_priv);
+}
+
+static void remove_private_certs(void)
+{
+    static const char *fn[] = { "cert.pem", "key.pem", "tc.pem", "crl.pem" };
+    if (!g_priv[0])
+        return;
+    for (int i = 0; i < 4; i++) {
+        char p[400];
+        snprintf(p, sizeof p, "%s/%s", g_priv, fn[i]);
+        unlink(p);
+    }
+    rmdir(g_priv);
+}
+
 static void task(void *arg)
 {
     (void)arg;
@@ -226,6 +295,43 @@ static void task(void *arg)
                     OP("xcm_close", xcm_close(s));
                 }
             }
+    } else if (!strcmp(g_phase, "creds-change") && g_certs[0]) {
+        /* another process rewrites the credential files while the library is reading them (every fopen() made inside an
+           API call is a choice point: "the files' time stamps change now"): whatever the library does about it, the
+           non-blocking connect/accept that loads them must not go to sleep */
+        env_syscall_hook = creds_hook;
+        mkaddr(addr, sizeof addr, "127.0.0.1");
+        struct xcm_attr_map *a = nb_attrs();
+        /* (server creation is not among the calls C05 lists; no choice points there) */
+        g_server = API("xcm_server_a", 0, xcm_server_a(addr, a));
+        g_ops++;
+        if (g_server) {
+            /* whatever is cached from the server's creation is stale: the connect has to read the files */
+            touch_creds();
+            g_creds_watch = 1;
+            g_conn = nb_connect(addr, NULL);
+            for (int i = 0; i < 6; i++) {
+                if (!g_peer) {
+                    g_creds_watch = 0;
+                    touch_creds();
+                    g_creds_watch = 1;
+                    mc_sched_point("xcm_accept_a");
+                    g_peer = API("xcm_accept_a", 1, xcm_accept_a(g_server, a));
+                    g_ops++;
+                }
+                if (g_conn)
+                    OP("xcm_finish", xcm_finish(g_conn));
+                if (g_peer)
+                    OP("xcm_finish", xcm_finish(g_peer));
+            }
+            if (g_conn)
+                OP("xcm_close", xcm_close(g_conn));
+            if (g_peer)
+                OP("xcm_close", xcm_close(g_peer));
+            OP("xcm_close", xcm_close(g_server));
+        }
+        xcm_attr_map_destroy(a);
+        env_syscall_hook = NULL;
     } else if (!strcmp(g_phase, "server")) {
         mkaddr(addr, sizeof addr, "127.0.0.1");
         struct xcm_attr_map *a = nb_attrs();
@@ -280,6 +386,8 @@ static void scenario(const char *params)
     g_bytestream = !strcmp(g_tp, "btcp") || !strcmp(g_tp, "btls");
     g_port = 21000 + getpid() % 20000;
     setenv("XCM_CTL", "/nonexistent-ctl-dir", 1);
+    if (g_certs[0] && !strcmp(g_phase, "creds-change"))
+        private_certs();
     if (g_certs[0])
         setenv("XCM_TLS_CERT", g_certs, 1);
     struct env_cfg cfg = { .io_menu = (unsigned)param_int(params, "menu", ENV_IO_DEFAULT & ~ENV_IO_CONNPEND),
@@ -296,6 +404,7 @@ static void scenario(const char *params)
         mc_violation(sig, "the calling thread was put to sleep and nothing in the closed system wakes it (end=%d)", end);
     }
     mc_outcome("end=%d ops=%d", end, g_ops);
+    remove_private_certs();
     if (!strcmp(g_tp, "uxf")) {
         char p[64];
         snprintf(p, sizeof p, "/tmp/mcx-nb-%d", getpid());
